@@ -43,6 +43,17 @@ def gen_recs(rng, alphabet, n, nonempty_prefix=False, no_at=False):
         usyn = ["https://" + fresh(seen_u, 0) + "#" for _ in range(rng.choice([0, 0, 1, 2]))]
         pat = rng.choice([None, None, "^\\d{7}$", "^[A-Z]+\\.\\d+$", "", "\\\\", "a b"])
         recs.append([p, u, psyn, usyn, opt(pat)])
+    # a CURIE prefix that, followed by ':', is the beginning of a URI prefix in the same converter (http, https): a reader that
+    # treats values as compact IRIs must not resolve them
+    if recs and nonempty_prefix and rng.random() < 0.3:
+        for name, slot in (("http", 0), ("https", 2)):
+            if name not in seen_p and rng.random() < 0.7:
+                seen_p.add(name)
+                r = recs[rng.randrange(len(recs))]
+                if slot == 0:
+                    r[0] = name
+                else:
+                    r[2] = r[2] + [name]
     return recs
 
 
